@@ -318,6 +318,28 @@ fn run_case(case: &Value) -> Value {
             let r = reconcile::reconcile(&fpmap(&case["a"]), &fpmap(&case["b"]), &fpmap(&case["base"]), case["trust_base"].as_bool().unwrap());
             json!({"result": r.iter().map(|(p, a)| json!([p.to_string_lossy(), format!("{a:?}")])).collect::<Vec<_>>()})
         }
+        "signature_check" => {
+            // Signature::generate vs an independent sequential reference (definition digest + the blake3 crate directly)
+            let n = case["n"].as_u64().unwrap() as usize;
+            let bs = case["bs"].as_u64().unwrap() as usize;
+            let mut x = case["seed"].as_u64().unwrap_or(1);
+            let data: Vec<u8> = (0..n).map(|_| { x = x.wrapping_mul(6364136223846793005).wrapping_add(1442695040888963407); (x >> 33) as u8 }).collect();
+            let sig = Signature::generate(&mut Cursor::new(&data), bs).unwrap();
+            let mut mism = Vec::new();
+            let nb = (n + bs - 1) / bs;
+            if sig.blocks.len() != nb || sig.file_size != n as u64 || sig.block_size != bs {
+                mism.push(json!({"blocks": sig.blocks.len(), "expected_blocks": nb}));
+            }
+            for (i, chunk) in data.chunks(bs).enumerate() {
+                if let Some(b) = sig.blocks.get(i) {
+                    let ok = b.index as usize == i && b.weak_hash == def_digest(chunk) && b.strong_hash.as_bytes() == blake3::hash(chunk).as_bytes();
+                    if !ok && mism.len() < 4 {
+                        mism.push(json!({"block": i, "index": b.index, "weak_ok": b.weak_hash == def_digest(chunk)}));
+                    }
+                }
+            }
+            json!({"equal": mism.is_empty(), "mismatches": mism})
+        }
         "set_local_mtime_roundtrip" => {
             // real file system: write a file, set its mtime through copia, read it back through copia
             let secs = case["secs"].as_i64().unwrap();
